@@ -201,8 +201,13 @@ fn main() {
          plus every name base-V0nb<R> for 18-digit revisions: pkgname() is the input; base/version \
          are the parts around the last '-'; base-version rebuilds the name; a version ending in \
          nb<1..18 digits> reports that revision, a version without 'nb' reports none; \
-         Summary::pkgbase/pkgversion give the same split for non-empty parts; and Pattern(base >= \
-         V0 nb R), (<= R) match, (> R) does not, (< R+1) does, (>= R+1) does not - i.e. the reported \
+         Summary::pkgbase/pkgversion give the same split for non-empty parts - also on an entry \
+         whose PKGPATH, PREV_PKGPATH, CATEGORIES, COMMENT, FILE_NAME, DEPENDS and PROVIDES are \
+         derived from the name (each text in front of one of its dashes), set before and after \
+         PKGNAME; and Pattern(base >= \
+         V0 nb R), (<= R) match, (> R) does not, (< R+1) does, (>= R+1) does not, and between two \
+         bounds of the same version (>=R<=R), (>=R<R+1), (>R-1<R+1), (>=R-1<=R+1) match, (>R<=R+1), \
+         (>=R-1<R) do not - i.e. the reported \
          revision is the one the comparison uses. Non-trivial = names with >= 2 '-', 'nb' in the \
          base, or several 'nb' in the version.",
     );
